@@ -272,6 +272,10 @@ func Plants(p Params) []Plant {
 		case fa.Field.Label != "":
 			kind = fa.Field.Label + "-field"
 		}
+		// editions: a message-typed field with delimited encoding (per field or by the file's default)
+		if fa.File.Syntax == "editions" && fa.Field.Type.Msg != nil && (p.Features == "field-delimited" || p.Features == "file-delimited") {
+			kind = "delimited-" + kind
+		}
 		return c.site(kind, fa.File, fa.Depth)
 	}
 	for i, fa := range probe.AllFields() {
@@ -385,7 +389,7 @@ func Plants(p Params) []Plant {
 			return []Expect{must("ENUM_NO_ALLOW_ALIAS", e.Alias, "decl")}
 		})
 		// ENUM_FIRST_VALUE_ZERO: only closed (proto2) enums may start with a non-zero value
-		if ea.File.Syntax == "proto2" {
+		if closedEnums(p, ea.File) {
 			c.add("enum-first-nonzero/swap", "ENUM_FIRST_VALUE_ZERO", c.site("enum", ea.File, ea.Depth), nil, func(s *Spec) []Expect {
 				e := s.AllEnums()[i].Enum
 				e.Values[0], e.Values[1] = e.Values[1], e.Values[0]
@@ -774,13 +778,41 @@ func Plants(p Params) []Plant {
 					}
 					c.add("package-option-differs/"+opt.Name, rule, fmt.Sprintf("%s/file%d", psite, fi), nil, func(s *Spec) []Expect {
 						fo := s.FilesOfPackage(pkg)[fi].Options[oi]
-						if fo.Value == "true" {
+						switch fo.Value {
+						case "true":
 							fo.Value = "false"
-						} else {
+						case "false":
+							fo.Value = "true"
+						default:
 							fo.Value = fo.Value[:len(fo.Value)-1] + `x"`
 						}
 						return optExpect(s)
 					})
+					// Value of the option in the rest of the package (round 5). A boolean option can be present
+					// with the value an absent option has: the files of the package then carry the *other*
+					// boolean value than the base gives them (for a FileOpts base: an explicit `false`), and one
+					// file differs from that by the opposite value / by not having the option at all. Present
+					// and absent are different option settings whatever the value.
+					if opt.Value == "true" || opt.Value == "false" {
+						other := fmt.Sprint(opt.Value != "true")
+						c.add("package-option-differs/"+opt.Name+"/rest-"+other, rule, fmt.Sprintf("%s/file%d", psite, fi), nil, func(s *Spec) []Expect {
+							for k, f := range s.FilesOfPackage(pkg) {
+								if k != fi {
+									f.Options[oi].Value = other
+								}
+							}
+							return optExpect(s)
+						})
+						c.add("package-option-missing/"+opt.Name+"/rest-"+other, rule, fmt.Sprintf("%s/file%d", psite, fi), nil, func(s *Spec) []Expect {
+							files := s.FilesOfPackage(pkg)
+							for _, f := range files {
+								f.Options[oi].Value = other
+							}
+							f := files[fi]
+							f.Options = append(append([]*FileOption{}, f.Options[:oi]...), f.Options[oi+1:]...)
+							return optExpect(s)
+						})
+					}
 					c.add("package-option-missing/"+opt.Name, rule, fmt.Sprintf("%s/file%d", psite, fi), nil, func(s *Spec) []Expect {
 						f := s.FilesOfPackage(pkg)[fi]
 						f.Options = append(append([]*FileOption{}, f.Options[:oi]...), f.Options[oi+1:]...)
